@@ -212,3 +212,79 @@ def scratch_dir(prefix):
     import tempfile
     base = '/dev/shm' if os.path.isdir('/dev/shm') and os.access('/dev/shm', os.W_OK) else None
     return tempfile.mkdtemp(prefix=prefix, dir=base)
+
+
+# ---- tree provenance (shared by C01, C03, C11) ---------------------------------------------------------------------------
+# The statements about trees quantify over every tree the library hands out, not only over fresh parses: a tree that was
+# updated in place by the diff parser, one that went through pickle, or one whose lazily filled slots were already read must
+# satisfy them as well.  ``tree_via`` produces the tree of ``code`` through the drawn provenance; ``observe(module, text)`` is
+# the property's own reader, run on the *earlier* state so that anything a reader may memoise is filled before the tree changes.
+PROVENANCES = ['fresh', 'fresh', 'fresh', 'observed', 'diffed', 'diffed', 'unpickled']
+
+
+def tree_shape(node):
+    """Types, child counts, values and prefixes - no positions (those are what C03/C11 judge)."""
+    out = []
+    stack = [node]
+    while stack:
+        n = stack.pop()
+        ch = getattr(n, 'children', None)
+        if ch is None:
+            out.append((n.type, n.value, n.prefix))
+        else:
+            out.append((n.type, len(ch)))
+            stack.extend(reversed(ch))
+    return out
+
+
+def earlier_variant(code, how):
+    """A text from which ``code`` is reached by a line-level edit (lines inserted / deleted / changed above, inside or below)."""
+    lines = ref_split_lines(code, True)
+    n = len(lines)
+    k = how % 7
+    mid = (how // 7) % (n + 1)
+    nl = '\r\n' if '\r\n' in code else ('\r' if '\r' in code and '\n' not in code else '\n')
+    if k == 0:
+        return ''.join(lines[:mid] + ['pass' + nl] + lines[mid:])
+    if k == 1:
+        return ''.join(lines[:mid] + lines[mid + 1:]) if n > 1 else code + nl + 'x' + nl
+    if k == 2:
+        return nl * (1 + how % 3) + code
+    if k == 3:
+        return ''.join(lines[:mid] + ['"""a' + nl, 'b"""' + nl, nl] + lines[mid:])
+    if k == 4:
+        return ''.join(lines[min(mid, n - 1) + 1:]) if n > 1 else 'x = 1' + nl
+    if k == 5:
+        return ''.join(lines[:mid] + ['def _f(a):' + nl, '    return "s"' + nl] + lines[mid:]) + nl + 'y' + nl
+    return ''.join(lines[:mid])
+
+
+def tree_via(g, code, provenance, how, key, observe):
+    """Returns (module, provenance actually used).  Falls back to the fresh tree (and says so) when the in-place update
+    gives another tree shape than the fresh parse - that divergence is C04's subject and is reported there."""
+    import pickle as _pickle
+    fresh = g.parse(code)
+    if provenance == 'fresh':
+        return fresh, 'fresh'
+    if provenance == 'observed':
+        observe(fresh, code)
+        return fresh, 'observed'
+    if provenance == 'unpickled':
+        observe(fresh, code)
+        return _pickle.loads(_pickle.dumps(fresh, protocol=2 + how % 4)), 'unpickled'
+    from pathlib import Path
+    from parso import cache as pcache
+    path = Path('/nonexistent/vf-prov-%s.py' % key)
+    earlier = earlier_variant(code, how)
+    try:
+        m0 = g.parse(earlier, diff_cache=True, path=path)
+        try:
+            observe(m0, earlier)
+        except RecursionError:
+            pass
+        md = g.parse(code, diff_cache=True, path=path)
+    finally:
+        pcache.parser_cache.get(g._hashed, {}).pop(path, None)
+    if earlier != code and tree_shape(md) == tree_shape(fresh):
+        return md, 'diffed'
+    return fresh, 'fresh(diff-fallback)'
